@@ -1,8 +1,10 @@
 package main
 
 import (
+	"bytes"
 	"fmt"
 	"go/ast"
+	"go/format"
 	"go/token"
 	"path/filepath"
 	"strings"
@@ -109,6 +111,20 @@ func init() {
 		expect(len(buildCmd) > 0, "mainErr: case build/test/run not found")
 		rev := callsInOrder(findFunc(mp, "commandReverse").Body, map[string]bool{"toolexecCmd": true, "RemoveAll": true, "rejectUnknownBuildFlags": true})
 		mapc := callsInOrder(findFunc(mp, "commandMap").Body, map[string]bool{"toolexecCmd": true, "RemoveAll": true, "rejectUnknownBuildFlags": true})
+		// the loop of toolexecCmd that rejects garble's own flags after the command: its whole text
+		var rejectLoop string
+		ast.Inspect(findFunc(mp, "toolexecCmd").Body, func(n ast.Node) bool {
+			switch n.(type) {
+			case *ast.RangeStmt, *ast.ForStmt:
+				var buf bytes.Buffer
+				format.Node(&buf, mp.fset, n)
+				if strings.Contains(buf.String(), "rxGarbleFlag.MatchString") && rejectLoop == "" {
+					rejectLoop = strings.Join(strings.Fields(buf.String()), " ")
+				}
+			}
+			return true
+		})
+		expect(rejectLoop != "", "toolexecCmd: the loop using rxGarbleFlag.MatchString was not found")
 		var sb strings.Builder
 		sb.WriteString(header + "namespace GV.Gen\n")
 		for _, x := range []struct {
@@ -117,6 +133,7 @@ func init() {
 		}{{"linkerSteps", linkerSteps}, {"toolexecLinkSteps", toolexec}, {"buildCommandSteps", buildCmd}, {"reverseCommandSteps", rev}, {"mapCommandSteps", mapc}} {
 			fmt.Fprintf(&sb, "def %s : List String := %s\n", x.name, leanStrList(x.l))
 		}
+		fmt.Fprintf(&sb, "def rejectLoopShape : String := %s\n", leanStr(rejectLoop))
 		sb.WriteString("end GV.Gen\n")
 		writeIfChanged("Steps.lean", sb.String())
 	}
